@@ -34,6 +34,10 @@ bsbin == <<98, 92, 99, 46, 98, 105, 110>>         \* b\c.bin
 kbsd == <<107, 92, 100>>                          \* k\d    (a directory)
 xdot == <<120, 46>>                               \* x.
 long == [k \in 1..200 |-> 97 + (k % 26)]          \* 200 bytes
+ndd  == <<110, 111, 116, 101, 115, 46, 46, 116, 120, 116>>   \* notes..txt   (inner double dot)
+vdd  == <<118, 49, 46, 46, 50>>                   \* v1..2        (a directory)
+edd  == <<101, 46, 46, 46, 98, 105, 110>>         \* e...bin
+xdd  == <<120, 46, 46>>                           \* x..          (trailing double dot)
 
 \* ------------------------------------------------------------------ literal-only LZ streams and the model's view of the decompressors
 RECURSIVE LitGroups(_)
@@ -89,7 +93,8 @@ D(p) == DirNode(p)
 
 \* ------------------------------------------------------------------ initial layer configurations (L[1] lowest ... top last)
 C1 == << { D(<<m>>), F(<<m, fbin>>, B1), D(<<a>>), F(<<a, z>>, B2), F(<<ab>>, B3),
-           F(<<m, bsbin>>, B2), D(<<kbsd>>), F(<<kbsd, xdot>>, B1), F(<<kbsd, long>>, B3) } >>
+           F(<<m, bsbin>>, B2), D(<<kbsd>>), F(<<kbsd, xdot>>, B1), F(<<kbsd, long>>, B3),
+           F(<<m, ndd>>, B1), D(<<vdd>>), F(<<vdd, edd>>, B2), D(<<vdd, xdd>>) } >>
 C2 == << { D(<<m>>), F(<<m, fbin>>, B1), F(<<m, glz>>, Lit13(P3)), F(<<m, hcmp>>, Lit10(P3)) },      \* file shadows file
          { D(<<m>>), F(<<m, fbin>>, B2) } >>
 C3 == << { D(<<m>>), F(<<m, fbin>>, B1) },                                                             \* dir above file
@@ -125,11 +130,11 @@ Pth(c) == [c |-> c, t |-> FALSE]
 PthT(c) == [c |-> c, t |-> TRUE]
 WPaths == { Pth(<<m, fbin>>), Pth(<<m, glz>>), Pth(<<m, hcmp>>), Pth(<<m, xx>>), Pth(<<a, z>>), Pth(<<ab>>),
             Pth(<<d, e, fbin>>), Pth(<<m, atE, fbin>>), Pth(<<q>>), Pth(<<m, fbin, xx>>), Pth(<<icms>>), Pth(<<m>>),
-            Pth(<<m, bsbin>>), Pth(<<kbsd, long>>) }
+            Pth(<<m, bsbin>>), Pth(<<kbsd, long>>), Pth(<<vdd, ndd>>) }
 CPaths == { Pth(<<m>>), PthT(<<d, e>>), Pth(<<q>>), Pth(<<m, fbin>>), Pth(<<m, atE>>), Pth(<<>>), Pth(<<q, xx>>) }
-QPaths == WPaths \cup { Pth(<<>>), PthT(<<m>>), Pth(<<d, e>>), Pth(<<m, atE>>), Pth(<<m, sx>>), Pth(<<a>>), Pth(<<m, atE, glz>>) }
+QPaths == WPaths \cup { Pth(<<m, ndd>>), Pth(<<vdd>>), Pth(<<vdd, edd>>), Pth(<<vdd, xdd>>) } \cup { Pth(<<>>), PthT(<<m>>), Pth(<<d, e>>), Pth(<<m, atE>>), Pth(<<m, sx>>), Pth(<<a>>), Pth(<<m, atE, glz>>) }
 LDirs == { Pth(<<>>), Pth(<<m>>), PthT(<<m>>), Pth(<<a>>), Pth(<<d>>), PthT(<<d, e>>), Pth(<<m, atE>>), Pth(<<q>>),
-           Pth(<<m, fbin>>), Pth(<<ab>>), Pth(<<kbsd>>) }
+           Pth(<<m, fbin>>), Pth(<<ab>>), Pth(<<kbsd>>), Pth(<<vdd>>) }
 TPaths == { Pth(<<m, fbin>>), Pth(<<m, glz>>), Pth(<<m, hcmp>>), Pth(<<q>>) }
 
 Ev(op, p, loc, data, g) == [op |-> op, p |-> p, loc |-> loc, data |-> data, glob |-> g]
@@ -339,7 +344,13 @@ ASSUME IF GenMode
 Periodic(n, per) == [k \in 1..n |-> (((k % per) * 37) + ((k % per) \div 11)) % 256]
 TextLike(n) == [k \in 1..n |-> 97 + ((((k % 251) * (k % 241)) + (k \div 7)) % 4)]
 Incompr(n) == [k \in 1..n |-> ((k % 251) * 37 + (k % 241) * 101 + (k \div 3) * 7) % 256]
-BigPayloads == IF Tier = "quick"
+\* payloads whose longest match has exactly the length L, for L at the boundaries of the reference layouts
+\* (LZ10: 3..18 in two bytes; LZ11/LZ13: ..0x10 two bytes, ..0x110 three bytes, beyond four bytes):
+\* a block of L bytes, a separator, the block again, then a byte that differs from the separator
+Block(n) == [k \in 1..n |-> (k * 7 + 3) % 251]
+MatchL(n) == Block(n) \o <<255>> \o Block(n) \o <<254, 253>>
+MatchPayloads == { MatchL(n) : n \in {16, 17, 18, 19, 272, 273, 274} }
+BigPayloads == MatchPayloads \cup IF Tier = "quick"
                THEN { Periodic(4097, 7), TextLike(4097), Periodic(8200, 13), TextLike(20000), Incompr(4096) }
                ELSE { Periodic(n, 7) : n \in {4095, 4096, 4097, 8200} } \cup { TextLike(n) : n \in {4095, 4096, 4097, 8200, 20000} }
                     \cup { Incompr(n) : n \in {4095, 4097, 8200} } \cup { Periodic(20000, 4099), Periodic(12000, 13) }
